@@ -237,3 +237,138 @@ Fixpoint csig_steps (cfg : config) (sc : cache) (steps : list cstep) (acc : N * 
        (if Nat.eqb nq 3 && negb deep then c3 + 1 else c3), (if deep then dd + 1 else dd))
   end.
 Definition ccase_signature (c : ccase) : N * N * N * N * N * N := csig_steps (cc_cfg c) [] (cc_steps c) (0, 0, 0, 0, 0, 0).
+
+(* ------------------------------------------------------------------------------------------------ *)
+(* written request lists with internal selectors: the split, dns.New on them, daedns.Router           *)
+(* ------------------------------------------------------------------------------------------------ *)
+Definition plan_code (p : plan) : N :=
+  match p with PlanUp i => i | PlanBootstrap => 300 | PlanBase => 301 | PlanErr => 2000 end.
+Definition opt_str_eqb (a b : option string) : bool :=
+  match a, b with Some x, Some y => String.eqb x y | None, None => true | _, _ => false end.
+
+Record rprobe := {
+  rp_sub : bool;                    (* a subscription (true) or a node (false) *)
+  rp_meta : meta;                   (* m_host: the control host (node: AddressHost; subscription: host of the link) *)
+  rp_lookup : string;               (* the host the wrapped dialer resolves *)
+  rp_qhits : list string;           (* qname regex patterns matching the lookup host *)
+  rp_impl_named : option string;    (* MatchNodeUpstream / MatchSubscriptionUpstream *)
+  rp_impl_dname : string;           (* resolvingDialer.upstreamName *)
+  rp_impl_dcontrol : string;        (* resolvingDialer.controlHost *)
+  rp_impl_plan : N }.               (* observed through LookupIPAddr: plan_code, 302 unwrapped, 1000+class *)
+
+Record rcase := {
+  rk_rc : rconfig;
+  rk_impl_new : N;                                            (* dns.New: 0 or 1000+class *)
+  rk_impl_split : option (list N * list N * list N * list N); (* positions of the rules of the four lists; None = split error *)
+  rk_qprobes : list probe;                                    (* ordinary questions (pr_resp = false) *)
+  rk_impl_router : N;                                         (* 0 nil router, 1 router, 1000+class *)
+  rk_rprobes : list rprobe }.
+
+Fixpoint positions (f : rrule -> bool) (rs : list rrule) (i : N) : list N :=
+  match rs with [] => [] | r :: rest => (if f r then [i] else []) ++ positions f rest (i + 1) end.
+Definition cls_is (o : option ikind) (r : rrule) : bool :=
+  match classify r, o with
+  | Ok None, None => true
+  | Ok (Some k), Some k' => ikind_eqb k k'
+  | _, _ => false
+  end.
+
+Definition cfg_of_rc (rc : rconfig) : config :=
+  {| cf_upstreams := rc_upstreams rc;
+     cf_request := {| rt_rules := map to_rule (filter (fun r => cls_is None r) (rc_request rc)); rt_fallback := rc_fallback rc |};
+     cf_response := rc_response rc |}.
+
+Fixpoint check_qprobes (rc : rconfig) (wf : bool) (d : res dns) (ps : list probe) (n : N) : list (N * N) :=
+  match ps with
+  | [] => []
+  | p :: rest =>
+    let m := match d with Err e => 1000 + e | Ok d' => res_code req_code (request_select d' (pr_bm p) (pr_q p)) end in
+    let s := opt_code req_code (request_route_raw rc (pr_q p)) in
+    let orc := match d with Ok d' => oracle_ok (d_req d') p | Err _ => true end in
+    (if m =? pr_raw p then [] else [(n, 1)])
+    ++ (if pr_raw p =? pr_impl p then [] else [(n, 7)])
+    ++ (if wf then (if cls s =? cls (pr_impl p) then [] else [(n, 2)]) ++ (if cls m =? cls s then [] else [(n, 3)]) else [])
+    ++ (if orc then [] else [(n, 5)])
+    ++ check_qprobes rc wf d rest (n + 1)
+  end.
+
+Definition rprobe_question (p : rprobe) : question :=
+  {| q_name := rp_lookup p; q_type := 1; q_regex_hits := rp_qhits p |}.
+
+(* error codes of the selector probes (100 + probe index, code):
+   21 named impl<>model  22 named impl<>spec  23 named model<>spec  24 dialer fields do not carry the named upstream / control host
+   31 plan impl<>model   32 plan impl<>spec   33 plan model<>spec *)
+Fixpoint check_rprobes (rc : rconfig) (wf : bool) (r : option router) (ps : list rprobe) (n : N) : list (N * N) :=
+  match ps with
+  | [] => []
+  | p :: rest =>
+    let m := rp_meta p in
+    let q := rprobe_question p in
+    let named_s := if rp_sub p then subscription_upstream (rc_request rc) m else node_upstream (rc_request rc) m in
+    let plan_s := plan_code (lookup_plan rc named_s (m_host m) (rp_lookup p) q) in
+    (match r with
+     | None =>
+       (if (rp_impl_plan p =? 302) && opt_str_eqb (rp_impl_named p) None then [] else [(100 + n, 31)])
+     | Some ro =>
+       let named_m := if rp_sub p then match_subscription_upstream ro m else match_node_upstream ro m in
+       let plan_m := res_code plan_code (dialer_plan ro named_m (m_host m) (rp_lookup p) (ideal_bm (ro_req ro) q) q) in
+       (if opt_str_eqb named_m (rp_impl_named p) then [] else [(100 + n, 21)])
+       ++ (if wf then (if opt_str_eqb named_s (rp_impl_named p) then [] else [(100 + n, 22)])
+                      ++ (if opt_str_eqb named_m named_s then [] else [(100 + n, 23)]) else [])
+       ++ (if String.eqb (rp_impl_dname p) (match rp_impl_named p with Some u => u | None => ""%string end)
+              && String.eqb (rp_impl_dcontrol p) (m_host m) then [] else [(100 + n, 24)])
+       ++ (if plan_m =? rp_impl_plan p then [] else [(100 + n, 31)])
+       ++ (if wf then (if cls plan_s =? cls (rp_impl_plan p) then [] else [(100 + n, 32)])
+                      ++ (if cls plan_m =? cls plan_s then [] else [(100 + n, 33)]) else [])
+     end)
+    ++ check_rprobes rc wf r rest (n + 1)
+  end.
+
+(* error codes (index, code) of an rcase: 1 2 3 5 7 as for matcher probes; 4 split lists impl<>model;
+   6 dns.New outcome impl<>model; 8 a mixed rule was not refused / a clean list was refused (impl vs spec shapes);
+   16 router construction outcome impl<>model; 12 a well-formed list refused by the router *)
+Definition check_rcase (c : rcase) : list (N * N) :=
+  let rc := rk_rc c in
+  let rs := rc_request rc in
+  let wf := wf_rconfig rc in
+  let d := dns_new_raw rc in
+  let mixed_m := existsb (fun r => match classify r with Err _ => true | Ok _ => false end) rs in
+  let mixed_s := existsb (fun r => shape_eqb (shape_of r) ShMixed) rs in
+  let split_m := (positions (cls_is None) rs 0, positions (cls_is (Some ISub)) rs 0,
+                  positions (cls_is (Some INode)) rs 0, positions (cls_is (Some ISubNode)) rs 0) in
+  let rt := router_new rc in
+  let rt_code := match rt with Ok None => 0 | Ok (Some _) => 1 | Err e => 1000 + e end in
+  (if res_code (fun _ => 0) d =? rk_impl_new c then [] else [(0, 6)])
+  ++ (if wf && negb (rk_impl_new c =? 0) then [(0, 2)] else [])
+  ++ (match rk_impl_split c with
+      | None => if mixed_m then [] else [(0, 4)]
+      | Some (a, b, c1, c2) =>
+        let '(ma, mb, mc1, mc2) := split_m in
+        if negb mixed_m && list_eqb N.eqb a ma && list_eqb N.eqb b mb && list_eqb N.eqb c1 mc1 && list_eqb N.eqb c2 mc2
+        then [] else [(0, 4)]
+      end)
+  ++ (if Bool.eqb mixed_s (match rk_impl_split c with None => true | Some _ => false end) then [] else [(0, 8)])
+  ++ check_qprobes rc wf d (rk_qprobes c) 0
+  ++ (if rt_code =? rk_impl_router c then [] else [(0, 16)])
+  ++ (if wf && (1000 <=? rk_impl_router c) then [(0, 12)] else [])
+  ++ (match rt with
+      | Ok r => check_rprobes rc wf r (rk_rprobes c) 0
+      | Err _ => []
+      end).
+
+(* signature: (well-formed, #dns rules, #internal rules, #selector probes named by a subnode/sub rule or node rule,
+               #unnamed, #distinct plans, #ordinary questions decided by a rule) *)
+Definition rcase_signature (c : rcase) : N * N * N * N * N * N * N :=
+  let rc := rk_rc c in
+  let rs := rc_request rc in
+  let nd := N.of_nat (List.length (filter (fun r => shape_eqb (shape_of r) ShDns) rs)) in
+  let named := map (fun p => if rp_sub p then subscription_upstream rs (rp_meta p) else node_upstream rs (rp_meta p)) (rk_rprobes c) in
+  let plans := map (fun p => let named_s := if rp_sub p then subscription_upstream rs (rp_meta p) else node_upstream rs (rp_meta p) in
+                             plan_code (lookup_plan rc named_s (m_host (rp_meta p)) (rp_lookup p) (rprobe_question p))) (rk_rprobes c) in
+  let ups := rc_upstreams rc in
+  let ruled := filter (fun p => negb (first_index ups (map to_rule (filter (fun r => shape_eqb (shape_of r) ShDns) rs))
+                                                  {| x_q := pr_q p; x_ips := []; x_from := SAsIs |} 0 =? nd)) (rk_qprobes c) in
+  ((if wf_rconfig rc then 1 else 0), nd, N.of_nat (List.length rs) - nd,
+   N.of_nat (List.length (filter (fun o => match o with Some _ => true | None => false end) named)),
+   N.of_nat (List.length (filter (fun o => match o with Some _ => false | None => true end) named)),
+   count_distinct plans, N.of_nat (List.length ruled)).
